@@ -151,7 +151,7 @@ def run_sock(case):
 
         client = S.SocketClient(path=path, num_connections=case['nconn'], connection_timeout=20)
         client._active_requests = LoggingDict()
-        client._shutdown_timeout = 5
+        client._shutdown_timeout = 1.5
         with client:
             q = client._pending_requests
             orig_put = q.put
@@ -211,7 +211,9 @@ def run_sock(case):
                 if t.done() and t.exception() is not None:
                     rep['errors'].append('client task: ' + repr(t.exception())[:300])
             try:
-                client.request('/shutdown', response_timeout=5)
+                # the answer to '/shutdown' itself can get lost (race in the server's shutdown path, outside
+                # C18, see notes/C18.md observation 4): bounded wait, the server stops either way
+                client.request('/shutdown', response_timeout=2)
             except BaseException as e:  # noqa
                 rep['shutdown_problem'] = repr(e)[:200]
         for t in client._tasks:
